@@ -548,7 +548,7 @@ def session_check(cfg):
             nb, res = run_and_validate(d, "core", files, "Trace_Core", known, 900)
             collect(prop, res, known_seen, violations, "boundary")
             nrec += nb
-            log(f"[{prop}] {len(hists)} core histories at the version boundary, {nb} records, {time.time()-t3:.0f}s")
+            log(f"[{prop}] {len(hists)} core-level histories (imports, restarts), {nb} records, {time.time()-t3:.0f}s")
         cov = {"states": max(1, st["distinct"]), "transitions": max(1, st["generated"]),
                "traces_validated_against_impl": len(scs), "samples": [scs[0]], "exhaustive": False,
                "trace_records_validated": nrec,
@@ -568,7 +568,8 @@ CHECKS["C13"] = session_check({"mc": "MC_Session", "mc_cfg": {"quick": "MC_Sessi
 CHECKS["C15"] = session_check({"mc": "MC_Session", "mc_cfg": {"quick": "MC_Session.cfg", "thorough": "MC_Session.cfg"},
                                "gen": sess.gen_c15, "assumptions": SESSION_ASSUME})
 CHECKS["C17"] = session_check({"mc": "MC_Session", "mc_cfg": {"quick": "MC_Session_noauth.cfg", "thorough": "MC_Session_noauth.cfg"},
-                               "gen": sess.gen_c17, "assumptions": SESSION_ASSUME})
+                               "gen": sess.gen_c17, "core_hist": gens.gen_c17_core,
+                               "assumptions": SESSION_ASSUME + ["inputs that only the import endpoint / a restart can produce are given to the core directly"]})
 
 CHECKS["C02"] = session_check({"mc": "MC_C02", "mc_cfg": {"quick": "MC_C02.cfg", "thorough": "MC_C02_thorough.cfg"},
                                "gen": sess.gen_c02, "core_hist": gens.gen_c02_boundary,
